@@ -169,6 +169,33 @@ void AsyncSim::op_recreate() {
 	svc_birth_seq = K.seq;
 }
 
+// HA: the application points the live service at its endpoints again (KSI_AsyncService_setEndpoint on the HA service drops the
+// sub-services, addEndpoint adds the others back). Nothing the old sub-services had consolidated or queued may survive: the
+// consolidated configuration afterwards is the fold over what the new sub-services receive.
+void AsyncSim::op_repoint() {
+	if (!svc || !ha || !plan.c("repoint", 0) || in_quiesce || outstanding() > 0) return;
+	for (auto &e : eps) if (e.http) return;
+	K.ev("REPOINT service");
+	K.count("probe.ha_service_repointed");
+	for (size_t i = 0; i < eps.size(); i++) {
+		SimEndpoint &e = eps[i];
+		int res = i == 0 ? KSI_AsyncService_setEndpoint(svc, e.uri.c_str(), e.cred_in_uri ? NULL : e.cfg.login.c_str(), e.cred_in_uri ? NULL : e.cfg.key.c_str())
+		                 : KSI_AsyncService_addEndpoint(svc, e.uri.c_str(), e.cred_in_uri ? NULL : e.cfg.login.c_str(), e.cred_in_uri ? NULL : e.cfg.key.c_str());
+		if (res != KSI_OK) { K.fail("C15", "repoint-refused", "setEndpoint", "pointing the HA service at endpoint %zu again failed with 0x%x", i, res); return; }
+	}
+	KSI_AsyncService_setOption(svc, KSI_ASYNC_OPT_REQUEST_CACHE_SIZE, (void *)cache);
+	KSI_AsyncService_setOption(svc, KSI_ASYNC_OPT_MAX_REQUEST_COUNT, (void *)maxreq);
+	KSI_AsyncService_setOption(svc, KSI_ASYNC_OPT_SND_TIMEOUT, (void *)(size_t)snd_to);
+	KSI_AsyncService_setOption(svc, KSI_ASYNC_OPT_RCV_TIMEOUT, (void *)(size_t)rcv_to);
+	KSI_AsyncService_setOption(svc, KSI_ASYNC_OPT_CON_TIMEOUT, (void *)(size_t)con_to);
+	if (conf_cb) KSI_AsyncService_setOption(svc, KSI_ASYNC_OPT_PUSH_CONF_CALLBACK, (void *)conf_cb_tramp);
+	for (auto &e : eps) { e.pending.clear(); e.answered.clear(); e.pushed_conf = false; }
+	conf_events.clear();
+	stream_corrupted = false;
+	generation++;
+	svc_birth_seq = K.seq;
+}
+
 bool AsyncSim::frame_of_current_service(const Frame &f) const {
 	if (f.conn >= 0) return N.conns[(size_t)f.conn]->opened_seq >= svc_birth_seq;
 	if (f.xfer >= 0) return C.xfers[(size_t)f.xfer]->added_seq >= svc_birth_seq;
@@ -884,6 +911,7 @@ void AsyncSim::exec(const run::Op &op) {
 	}
 	else if (k == "QUIESCE") quiesce();
 	else if (k == "RECREATE") op_recreate();
+	else if (k == "REPOINT") op_repoint();
 	else if (k == "GROWCACHE") {
 		// the application enlarges the request cache while requests are outstanding (the id cursor may have wrapped by then)
 		if (ha || !svc || in_quiesce) return;
